@@ -4,6 +4,8 @@ mod c06;
 mod c09;
 mod c15;
 mod c16;
+mod cbackend;
+mod ctx_compile;
 mod tirgen;
 mod gal;
 mod rng;
@@ -114,6 +116,10 @@ fn main() {
         ("run", "C07") => c06::run(&mut ctx, true),
         ("run", "C09") => c09::run(&mut ctx),
         ("run", "C16") => c16::run(&mut ctx),
+        ("run", "C02") => cbackend::run(&mut ctx, cbackend::Focus::C02),
+        ("run", "C08") => cbackend::run(&mut ctx, cbackend::Focus::C08),
+        ("run", "C10") => cbackend::run(&mut ctx, cbackend::Focus::C10),
+        ("run", "C14") => cbackend::run(&mut ctx, cbackend::Focus::C14),
         ("extract", _) => {
             // translators: none registered yet
             return;
